@@ -661,8 +661,20 @@ static void gen_init(PObj *o, int kind, int size, int domain) {
   switch (kind) {
   case K_BOOL:
   case K_FLAG: o->init[0] = below(2); break;
-  case K_FLOAT: { float f = (float)v; memcpy(o->init, &f, 4); break; }
-  case K_DOUBLE: { double d = (double)v; memcpy(o->init, &d, 8); break; }
+  case K_FLOAT: {
+    float f = (float)v;
+    int sp = below(12); // special values now and then: NaN, -0.0, infinity (compared as bit patterns by compare-exchange)
+    if (sp == 0) f = __builtin_nanf(""); else if (sp == 1) f = -0.0f; else if (sp == 2) f = __builtin_inff();
+    memcpy(o->init, &f, 4);
+    break;
+  }
+  case K_DOUBLE: {
+    double d = (double)v;
+    int sp = below(12);
+    if (sp == 0) d = __builtin_nan(""); else if (sp == 1) d = -0.0; else if (sp == 2) d = -__builtin_inf();
+    memcpy(o->init, &d, 8);
+    break;
+  }
   case K_PTR: { long q = v * 8; memcpy(o->init, &q, 8); break; }
   case K_SPIN: memcpy(o->init + 8, &v, 8); break;
   case K_TSTACK: break; // empty list, all links null
